@@ -375,7 +375,8 @@ def step (t : T) : Ev → Except String T
       if !d.active then throw s!"inactive deme {id} runs"
       let (t1, ev) ← evalReqs t id d.level false reqs
       if nfev != reqs.length then throw s!"scipy reports nfev={nfev} but {reqs.length} evaluations were requested"
-      if !(iterates.all ev.contains) then throw s!"local deme {id} recorded an iterate that was never evaluated with that value"
+      let refusedHere := ev.any fun e => e.genome.isEmpty && e.fit == Fit.sentinel t.cfg.maximize
+      if !(iterates.all fun i => ev.contains i || (refusedHere && i.fit == Fit.sentinel t.cfg.maximize)) then throw s!"local deme {id} recorded an iterate that was never evaluated with that value"
       let t2 := t1.update id fun d => { d with counter := d.counter + nfev, hist := d.hist ++ [[⟨iterates, ev⟩]], active := false }
       pure { t2 with pc := finish q }
     | _ => .error s!"local deme {id} runs at the wrong moment"
